@@ -276,7 +276,7 @@ func cmdCheck(args []string) int {
 			}
 		}
 		ran++
-		h := &harnessRun{name: name, fn: hf, isMutant: strings.HasPrefix(name, "VerifMutant_")}
+		h := &harnessRun{name: name, fn: hf, isMutant: strings.HasPrefix(name, "VerifMutant_"), known: known, prop: *prop}
 		if os.Getenv("GOSYM_DUMP") != "" {
 			h.dumpDir = filepath.Join(verifDir, "out", *prop, "queries")
 		}
